@@ -180,6 +180,8 @@ impl Position {
     #[verifier::external_body] pub fn set_position_attrs(&self, element: &mut SvgElement)
         requires old(element).name@ == "g"@ || old(element).pos_expanded()     // Position writes per-axis attributes: a shorthand (xy="0" on the template) still on the element would be expanded afterwards and fight with them @C18.place.position_shorthand_expanded_first
     { unimplemented!() }
+    /// R-abstract: the block that copies the template's own constraints on an axis the reuse does not position (field assignments on Position; under contract in U-posattrs: C18.place.unpositioned_axis_keeps_template)
+    #[verifier::external_body] pub fn keep_unpositioned_axes_of(&mut self, e: &SvgElement) { unimplemented!() }
     #[verifier::external_body] pub fn has_x_position(&self) -> bool { unimplemented!() }
     #[verifier::external_body] pub fn has_y_position(&self) -> bool { unimplemented!() }
 }
@@ -401,6 +403,7 @@ impl EventGen for ReuseElement {
 //@ replace[R-abstract] <<<        for (attr, value) in reuse_element.get_attrs() {\n            match attr.as_str() {\n                "href" | "id" | "x" | "y" => continue,\n                "transform" => {\n                    // append to any existing transform\n                    let mut xfrm = value.clone();\n                    if let Some(inst_xfrm) = instance_element.get_attr("transform") {\n                        xfrm = format!("{} {}", inst_xfrm, xfrm);\n                    }\n                    instance_element.set_attr("transform", &xfrm);\n                }\n                _ => {\n                    // this is the _opposite_ of set_default_attr(); it allows\n                    // the target element to provide defaults, but have them\n                    // overridden by the reuse element.\n                    if instance_element.has_attr(&attr) {\n                        instance_element.set_attr(&attr, &value);\n                    }\n                }\n            }\n        }>>> => <<<        override_attrs(&reuse_element, &mut instance_element);>>>
 //@ replace[R-ctor] <<<SvgElement::new("g", &[])>>> => <<<SvgElement::new_g()>>>
 //@ replace[R-ctor] <<<Position::from(&reuse_element)>>> => <<<position_from(&reuse_element)>>>
+//@ cut[R-abstract] <<<                let own = Position::from(&instance_element);>>> .. <<<                    pos.dy = own.dy;\n                }>>> => <<<                pos.keep_unpositioned_axes_of(&instance_element);>>>
 //@ replace[R-abstract] <<<            let mut new_events = InputList::new();\n            let tag_name = instance_element.name.clone();\n            let mut start_ev = InputEvent::from(OutputEvent::Start(instance_element));\n            start_ev.index = start;\n            start_ev.alt_idx = Some(end);\n            new_events.push(start_ev);\n            new_events.extend(&InputList::from(&context.events[start + 1..end]));\n            let mut end_ev = InputEvent::from(OutputEvent::End(tag_name));\n            end_ev.index = end;\n            end_ev.alt_idx = Some(start);\n            new_events.push(end_ev);\n            process_events(new_events, context)>>> => <<<            let new_events = instance_events(instance_element, start, end, context);\n            process_events(new_events, context)>>>
 //@ before <<<instance_element.expand_compound_size();>>>
 //@ | assert(scoping_name(instance_element.name@) ==> exists|raw: SvgElement| #[trigger] evaluated_from(raw, instance_element) && scope_vars_bounded(raw, instance_element, context.config.var_limit as nat)); // the attributes of a group / symbol / reuse instance become variables of what it contains or instantiates: bounded like any other scope variable (a symbol turns into a g a few lines further down; a reuse pushes them itself, but then sees them already evaluated) @C17.scope.group_instance_vars_bounded @C01.scope.group_instance_vars_bounded
